@@ -118,3 +118,9 @@ func vcIsImsiSupi(s string) bool {
 	return len(s) >= 10 && s[0] == 'i' && s[1] == 'm' && s[2] == 's' && s[3] == 'i' && s[4] == '-' &&
 		vc.Forall(5, len(s), func(i int) bool { return '0' <= s[i] && s[i] <= '9' })
 }
+
+// vcIsImsiSupiN: "imsi-" followed by decimal digits only (any number of them, at least five).
+func vcIsImsiSupiN(s string) bool {
+	return len(s) >= 10 && s[0] == 'i' && s[1] == 'm' && s[2] == 's' && s[3] == 'i' && s[4] == '-' &&
+		vc.Forall(5, len(s), func(i int) bool { return '0' <= s[i] && s[i] <= '9' })
+}
